@@ -52,6 +52,7 @@ type DeclCfg struct {
 	MultiLine    bool // some descriptions span several lines
 	CapCmds      bool // some command names contain upper-case letters
 	DupFields    bool // a nested group may reuse a field name of its parent group
+	PtrGroups    bool // nested groups declared as nil pointers to their struct
 	DupTags      bool // single-valued tags are sometimes given twice (the last one counts)
 	ManyAliases  bool // commands with several aliases sharing a prefix
 	BaseMulti    bool // base: tags also on slices and maps of integers
@@ -260,6 +261,9 @@ func (g *declGen) group(name string, depth int) *GroupSpec {
 				// the same Go field name in a group and in its nested group
 				sub.Opts[0].Field = gs.Opts[r.Intn(len(gs.Opts))].Field
 			}
+			if cfg.PtrGroups && len(sub.Opts) > 0 && r.Fork("ptrgroup").Chance(1, 3) {
+				sub.ViaPtr = true
+			}
 			gs.Sub = append(gs.Sub, sub)
 		}
 	}
@@ -326,6 +330,9 @@ func (g *declGen) cmd(depth int, tagOK bool) *CmdSpec {
 		c.Short = "The " + c.Name + " command"
 		if r.Chance(1, 3) {
 			c.Long = "The " + c.Name + " command does things with `items' and more"
+			if cfg.MultiLine && r.Chance(1, 2) {
+				c.Long += "\nsecond line of the text\nInclude = looks like an entry\n[and like a header]"
+			}
 		}
 	}
 	if cfg.Aliases && r.Chance(1, 3) {
